@@ -64,7 +64,7 @@ def stratum(line):
     key = ["%s|%s" % (cfg.get("enforce"), bool((cfg.get("default") or {}).get("scheme")))]
     key += ["%s|%s|%s" % (c_["prefix"], bool(c_.get("sec")), bool(c_.get("tag"))) for c_ in cs.get("ctrls", [])]
     for m in cs.get("methods", []):
-        key.append("%s|%s|%s" % (m.get("hidden"), bool(m.get("sec")), any((x.get("scheme") == "s9") for x in (m.get("sec") or []))))
+        key.append("%s|%s|%s" % (m.get("hidden"), bool(m.get("sec")), ",".join(sorted(set(x.get("scheme", "") for x in (m.get("sec") or []) if x.get("scheme") in ("s9", "S1"))))))
         kinds = sorted(set(piece.split(":")[0] for piece in (m.get("ptag") or "").split("+")))
         key.append("%s|%s|%s|%s" % (",".join(kinds), m.get("desc", ""), len(m.get("sig", [])), ",".join(str(g) for g in m.get("groups", []))))
     key.append(",".join(sorted(t["name"] + (":" + t["fields"][0]["type"] if t["name"] in ("Hostile", "Rules") and t.get("fields") else "") for t in cs.get("types", []))))
@@ -223,7 +223,7 @@ def build_recording(tier):
     work = os.path.join(sc, "work")
     # (cfg, simulate-walks, sample-size, extra pipe-run flags)
     V0, A0 = ["--validate=false"], ["--alt=false"]
-    plan = [("Pipeline_c04.cfg", None, 600 if thorough else 56, V0), ("Pipeline_c01sim.cfg", 1200 if thorough else 40, None, V0),
+    plan = [("Pipeline_c04.cfg", None, 800 if thorough else 72, V0), ("Pipeline_c01sim.cfg", 1200 if thorough else 40, None, V0),
             ("Pipeline_sim.cfg", 2500 if thorough else 40, None, V0), ("Pipeline_c06single.cfg", None, 10 ** 6, V0), ("Pipeline_c06grp.cfg", None, 10 ** 6 if thorough else 16, V0), ("Pipeline_c06sim.cfg", 1500 if thorough else 30, None, V0),
             ("Pipeline_c07sim.cfg", 1500 if thorough else 40, None, V0), ("Pipeline_c11rules.cfg", None, 10 ** 6, V0), ("Pipeline_c11rulesp.cfg", None, 10 ** 6, V0), ("Pipeline_c10core.cfg", None, 10 ** 6, A0), ("Pipeline_c10.cfg", None, 1000 if thorough else 40, A0), ("Pipeline_c10mask.cfg", None, 700 if thorough else 40, A0),
             ("Pipeline_c10maskcore.cfg", None, 10 ** 6, A0), ("Pipeline_c10enf.cfg", None, 10 ** 6, A0),
